@@ -84,6 +84,33 @@ TrDeliver == IsEvent("Deliver") /\ ~Failed(Trace[l]) /\ LET e == Trace[l]  a == 
      /\ ConfD("Components", (e.res = "ok" /\ ~r.gov) =>
                  \A p \in P : ChComps(p) \subseteq r.wr \cup {"bal", "acct"}, <<k, a, {<<p, ChComps(p)>> : p \in P}>>)
 
+\* a delivery whose sender-chosen key is variant a.v of the key of an object a.n already owns
+TrDeliverK == IsEvent("DeliverK") /\ ~Failed(Trace[l]) /\ LET e == Trace[l]  a == e.args  k == a.kind IN
+  /\ Assert(k \in Keyed /\ a.v \in Variants, <<"unknown keyed kind / variant in trace", l, a>>)
+  /\ LET seen == G(e.g)
+         CompChanged(p, i) == e.obs.pre[PName(p)][i] # e.obs.post[PName(p)][i]
+         Counts(p, i) == ~(Comps[i] = "acct" /\ p = a.s)
+         ChComps(p) == {Comps[i] : i \in {j \in DOMAIN Comps : CompChanged(p, j) /\ Counts(p, j)}}
+         Ch(p) == ChComps(p) # {}
+         modelOK == (a.s = a.c \/ Granted(seen, a.c, a.s)) /\ KeyAccepted(k, a.c, a.n, a.v)
+     IN
+     /\ grants' = G(e.gpost)
+     /\ owned' = [p \in P |-> IF Ch(p) THEN [owned[p] EXCEPT ![k] = @ + 1] ELSE owned[p]]
+     /\ last' = [Act("DeliverK", k, a.s, a.c, a.n) EXCEPT !.k1 = a.v]
+     /\ res' = IF e.res = "ok" THEN "ok" ELSE "fail"
+     /\ nops' = nops + 1
+     /\ Report("Setup.Built", e.cls # "build")
+     /\ Report("Setup.KeyedShape", a.s \in Users /\ a.c \in Users /\ a.n \in Users)
+     /\ Report("Setup.ObservedShape", \A p \in P : Len(e.obs.pre[PName(p)]) = Len(Comps) /\ Len(e.obs.post[PName(p)]) = Len(Comps))
+     /\ Report("Setup.GrantsContinuous", Abs(grants) = seen)
+     \* whatever the chain makes of the key: nothing attributed to anybody but the creator (and the signer) changes
+     /\ Report("C03.NoForeignWrite", NoForeignWrite)
+     /\ Report("C03.GrantNeeded", GrantNeeded)
+     /\ Report("C03.GovOnly", GovOnly)
+     /\ ConfD("ResultK", (e.res = "ok") = modelOK, <<k, a, e.key, e.res, e.cls, e.cs, e.code, e.g>>)
+     /\ ConfD("FailureIsNoop", FailureIsNoop, <<k, a, e.res, e.cls, {<<p, ChComps(p)>> : p \in P}>>)
+     /\ ConfD("ComponentsK", e.res = "ok" => \A p \in P : ChComps(p) \subseteq KT[k].wr \cup {"bal", "acct"}, <<k, a, {<<p, ChComps(p)>> : p \in P}>>)
+
 \* one transaction with two messages, both signed by a.s only: a.k1 in a.s's own name, a.k2 in a.c's name
 TrDeliver2 == IsEvent("Deliver2") /\ ~Failed(Trace[l]) /\ LET e == Trace[l]  a == e.args IN
   /\ Assert(a.k1 \in Kinds /\ a.k2 \in Kinds, <<"unknown kind in trace", l, a>>)
@@ -125,10 +152,10 @@ TrRegistry == IsEvent("Registry") /\ LET e == Trace[l]
   /\ Report("Setup.ComponentNames", e.comps = Comps)
 
 \* a block that could not be finalised / committed at all
-TrBlockFail == /\ l <= Len(Trace) /\ Trace[l].act \in GrantActs \cup {"Deliver", "Deliver2"} /\ Failed(Trace[l]) /\ l' = l + 1
+TrBlockFail == /\ l <= Len(Trace) /\ Trace[l].act \in GrantActs \cup {"Deliver", "Deliver2", "DeliverK"} /\ Failed(Trace[l]) /\ l' = l + 1
                /\ UNCHANGED vars /\ Report("Setup.BlockFailure", FALSE)
 
 TraceInit == Init /\ l = 1
-TraceNext == TrInit \/ TrGrant \/ TrDeliver \/ TrDeliver2 \/ TrRegistry \/ TrBlockFail
+TraceNext == TrInit \/ TrGrant \/ TrDeliver \/ TrDeliver2 \/ TrDeliverK \/ TrRegistry \/ TrBlockFail
 TraceAccepted == TLCGet("stats").diameter - 1 = Len(Trace)
 =============================================================================
